@@ -39,6 +39,9 @@ func genCase(r *fw.Rand) fw.Case {
 	ops := []string{fmt.Sprintf("reset %d %d", maxSeg, maxSize)}
 	id := 0
 	open := true
+	// half of the histories are cut by crashes (an image of the directory, restarted); in
+	// those the buffered path is not used: what it loses is a known finding with its own replay
+	crashes := r.Chance(0.5)
 	n := 10 + r.Intn(60)
 	add := func(op string) {
 		ops = append(ops, op)
@@ -61,7 +64,7 @@ func genCase(r *fw.Rand) fw.Case {
 				l = len(fmt.Sprint(id))
 			}
 			b := 0
-			if r.Chance(0.2) {
+			if r.Chance(0.2) && !crashes {
 				b = 1
 			}
 			add(fmt.Sprintf("append %d %d %d", id, l, b))
@@ -74,8 +77,11 @@ func genCase(r *fw.Rand) fw.Case {
 			ops = append(ops, "current")
 			add("advance")
 		case 14:
-			if open {
+			if open && r.Chance(0.5) {
 				add(fmt.Sprintf("setmax %d", []int{64, 100, 200, 400, 1024}[r.Intn(5)]))
+			} else if crashes {
+				add("crash")
+				open = true
 			}
 		case 15:
 			add(fmt.Sprintf("age %d", r.Intn(3)))
@@ -212,10 +218,55 @@ func blockID(b []byte) int {
 }
 
 type impl struct {
-	dir  string
-	q    *hh.VerifQueue
-	proc *hh.NodeProcessor
-	w    *recWriter
+	dir     string
+	q       *hh.VerifQueue
+	proc    *hh.NodeProcessor
+	w       *recWriter
+	maxSeg  int
+	maxSize int
+	crashes int
+	olddirs []string
+}
+
+// openProc opens a node processor (background sender not running) on m.dir.
+func (m *impl) openProc() string {
+	cfg := hh.NewConfig()
+	cfg.MaxSize = int64(m.maxSize)
+	cfg.MaxWritesPending = 16
+	m.w = &recWriter{}
+	m.proc = hh.NewNodeProcessor(cfg, 2, 1, m.dir, m.w, oneNode{})
+	if err := hh.VerifOpenProcessor(m.proc); err != nil {
+		return errName(err)
+	}
+	m.q = hh.VerifProcessorQueue(m.proc)
+	return errName(m.q.SetMaxSegmentSize(int64(m.maxSeg)))
+}
+
+// copyDir copies the queue's files (with their modification times) as a crash image.
+func copyDir(src, dst string) error {
+	if err := os.MkdirAll(dst, 0o755); err != nil {
+		return err
+	}
+	es, err := os.ReadDir(src)
+	if err != nil {
+		return err
+	}
+	for _, e := range es {
+		if e.IsDir() {
+			continue
+		}
+		b, err := os.ReadFile(filepath.Join(src, e.Name()))
+		if err != nil {
+			return err
+		}
+		if err := os.WriteFile(filepath.Join(dst, e.Name()), b, 0o644); err != nil {
+			return err
+		}
+		if fi, err := e.Info(); err == nil {
+			os.Chtimes(filepath.Join(dst, e.Name()), fi.ModTime(), fi.ModTime())
+		}
+	}
+	return nil
 }
 
 // recWriter is the shard writer behind the node processor: it records what it is given.
@@ -292,22 +343,25 @@ func (m *impl) step(op string) (out string) {
 		}
 		os.RemoveAll(m.dir)
 		os.MkdirAll(m.dir, 0o755)
-		maxSeg, maxSize := 1024, 100000
+		m.maxSeg, m.maxSize = 1024, 100000
 		if len(f) == 3 {
-			maxSeg, maxSize = atoi(f[1]), atoi(f[2])
+			m.maxSeg, m.maxSize = atoi(f[1]), atoi(f[2])
 		}
 		// the queue of a node processor whose background sender is not running: `psend` ops
 		// drive NodeProcessor.SendWrite step by step, every other op goes to the queue itself
-		cfg := hh.NewConfig()
-		cfg.MaxSize = int64(maxSize)
-		cfg.MaxWritesPending = 16
-		m.w = &recWriter{}
-		m.proc = hh.NewNodeProcessor(cfg, 2, 1, m.dir, m.w, oneNode{})
-		if err := hh.VerifOpenProcessor(m.proc); err != nil {
-			return errName(err)
+		return m.openProc()
+	case "crash":
+		// a crash image (the directory as it is now) and a restart on it; the old process is
+		// abandoned (closed only after the copy, to free its files)
+		m.crashes++
+		img := fmt.Sprintf("%s.crash%d", strings.TrimRight(m.dir, "/"), m.crashes)
+		if err := copyDir(m.dir, img); err != nil {
+			return "err:image"
 		}
-		m.q = hh.VerifProcessorQueue(m.proc)
-		return errName(m.q.SetMaxSegmentSize(int64(maxSeg)))
+		m.q.Close()
+		m.olddirs = append(m.olddirs, m.dir)
+		m.dir = img
+		return m.openProc()
 	case "append":
 		var release func()
 		if f[3] == "1" {
@@ -366,6 +420,7 @@ func (m *impl) step(op string) (out string) {
 		if len(m.q.SegmentIDs()) == 0 {
 			return "notopen"
 		}
+		m.maxSeg = atoi(f[1])
 		return errName(m.q.SetMaxSegmentSize(int64(atoi(f[1]))))
 	case "age":
 		if err := m.q.SetSegmentModTime(atoi(f[1]), time.Now().Add(-48*time.Hour)); err != nil {
@@ -405,6 +460,10 @@ func runCase(c fw.Case, tag string) []string {
 			m.q.Close()
 		}
 		os.RemoveAll(dir)
+		os.RemoveAll(m.dir)
+		for _, d := range m.olddirs {
+			os.RemoveAll(d)
+		}
 	}()
 	out := make([]string, len(c.Ops))
 	for i, op := range c.Ops {
@@ -435,6 +494,22 @@ func (Prop) RunImpl(c fw.Case) []string { return runCase(c, "i") }
 // Empty() must answer true exactly when nothing is pending.
 func (Prop) Oracle(c fw.Case, out []string) fw.Verdict {
 	var pending []int // accepted, not yet delivered or purged (FIFO)
+	// accepted under the buffered path and possibly still in a write buffer; at a crash they
+	// become maybeLost: if one of them is then missing the report says so (a known finding)
+	var unflushed []int
+	maybeLost := map[int]bool{}
+	allMaybeLost := func(ids []int) bool {
+		if len(ids) == 0 {
+			return false
+		}
+		for _, id := range ids {
+			if !maybeLost[id] {
+				return false
+			}
+		}
+		return true
+	}
+	const lostSig = "a block accepted under the buffered path is lost by a crash"
 	purged := false
 	lastCurrent := -1
 	open, sentinel := true, false
@@ -451,9 +526,18 @@ func (Prop) Oracle(c fw.Case, out []string) fw.Verdict {
 		switch f[0] {
 		case "reset":
 			pending, purged, lastCurrent, open, sentinel = nil, false, -1, true, false
+			unflushed, maybeLost = nil, map[int]bool{}
+		case "crash":
+			for _, id := range unflushed {
+				maybeLost[id] = true
+			}
+			unflushed = nil
+			open = true
+			lastCurrent = -1
 		case "close":
 			if o == "ok" {
 				open = false
+				unflushed = nil // Close flushes
 			}
 			lastCurrent = -1
 		case "open":
@@ -467,6 +551,11 @@ func (Prop) Oracle(c fw.Case, out []string) fw.Verdict {
 				pending = append(pending, id)
 				if id == 9999 {
 					sentinel = true
+				}
+				if len(f) > 3 && f[3] == "1" {
+					unflushed = append(unflushed, id)
+				} else {
+					unflushed = nil // an unbuffered append flushes what was buffered before it
 				}
 			}
 			lastCurrent = -1
@@ -486,6 +575,9 @@ func (Prop) Oracle(c fw.Case, out []string) fw.Verdict {
 					return fw.Verdict{OK: false, Why: fmt.Sprintf("op %d: current returned block %d which is not pending (pending %v)", i, id, pending), Signature: "delivered block not pending (duplicate or phantom)"}
 				}
 				if idx > 0 && !purged {
+					if allMaybeLost(pending[:idx]) {
+						return fw.Verdict{OK: false, Why: fmt.Sprintf("op %d: current returned block %d; blocks %v, accepted before it under the buffered path and not yet flushed when the crash image was taken, are gone", i, id, pending[:idx]), Signature: lostSig}
+					}
 					return fw.Verdict{OK: false, Why: fmt.Sprintf("op %d: current returned block %d but block %d is older and still pending", i, id, pending[0]), Signature: "block delivered out of order / older block skipped"}
 				}
 				if idx > 0 {
@@ -506,6 +598,13 @@ func (Prop) Oracle(c fw.Case, out []string) fw.Verdict {
 						}
 					}
 					if len(pending) == 0 || pending[0] != id {
+						k := 0
+						for k < len(pending) && pending[k] != id {
+							k++
+						}
+						if k < len(pending) && allMaybeLost(pending[:k]) {
+							return fw.Verdict{OK: false, Why: fmt.Sprintf("op %d %q sent block %d; blocks %v, accepted before it under the buffered path and not yet flushed when the crash image was taken, are gone", i, op, id, pending[:k]), Signature: lostSig}
+						}
 						return fw.Verdict{OK: false, Why: fmt.Sprintf("op %d %q sent block %d, the oldest pending block is %v", i, op, id, pending), Signature: "sender delivered a block that is not the oldest pending one"}
 					}
 				}
@@ -532,6 +631,9 @@ func (Prop) Oracle(c fw.Case, out []string) fw.Verdict {
 				continue // after an age purge the oracle no longer knows exactly what is pending; a closed queue holds nothing open
 			}
 			want := fmt.Sprint(len(pending) == 0)
+			if o != want && o == "true" && allMaybeLost(pending) {
+				return fw.Verdict{OK: false, Why: fmt.Sprintf("op %d: Empty() = true, but blocks %v were accepted (under the buffered path, not yet flushed when the crash image was taken) and never delivered", i, pending), Signature: lostSig}
+			}
 			if o != want {
 				return fw.Verdict{OK: false, Why: fmt.Sprintf("op %d (after %q): Empty() = %s with pending blocks %v", i, c.Ops[i-1], o, pending), Signature: "Empty()=" + o + " after " + strings.Fields(c.Ops[i-1])[0]}
 			}
@@ -540,6 +642,9 @@ func (Prop) Oracle(c fw.Case, out []string) fw.Verdict {
 		}
 	}
 	// the case ends with a full drain on an open queue: nothing accepted may be left behind
+	if len(pending) > 0 && !purged && open && sentinel && allMaybeLost(pending) {
+		return fw.Verdict{OK: false, Why: fmt.Sprintf("blocks %v were accepted under the buffered path, the crash image was taken before they were flushed, and they were never delivered", pending), Signature: lostSig}
+	}
 	if len(pending) > 0 && !purged && open && sentinel {
 		return fw.Verdict{OK: false, Why: fmt.Sprintf("after the final drain blocks %v were never delivered", pending), Signature: "accepted block never delivered"}
 	}
